@@ -258,7 +258,8 @@ class Decoder(Coder):
 
         # special cases: all missing or all equals
         if min_value is None:
-            assert nbits_diff == 0, ('{}: nbits_diff must be zero for compressed '
+            if nbits_diff != 0:
+                raise PyBufrKitError('{}: nbits_diff must be zero for compressed '
                                      'values that are all missing or equal'.format(descriptor))
             for decoded_values in state.decoded_values_all_subsets:
                 decoded_values.append(None)
@@ -305,7 +306,8 @@ class Decoder(Coder):
 
         # special cases: all missing or all equals
         if min_value is None or nbits_diff == 0:
-            assert nbits_diff == 0, ('{}: nbits_diff must be zero for compressed '
+            if nbits_diff != 0:
+                raise PyBufrKitError('{}: nbits_diff must be zero for compressed '
                                      'values that are all missing or equal'.format(descriptor))
             for decoded_values in state.decoded_values_all_subsets:
                 decoded_values.append(min_value)
@@ -329,7 +331,8 @@ class Decoder(Coder):
 
         # special cases: all missing or all equals
         if min_value is None or nbits_diff == 0:
-            assert nbits_diff == 0, ('{}: nbits_diff must be zero for compressed '
+            if nbits_diff != 0:
+                raise PyBufrKitError('{}: nbits_diff must be zero for compressed '
                                      'values that are all missing or equal'.format(descriptor))
             for decoded_values in state.decoded_values_all_subsets:
                 decoded_values.append(min_value)
@@ -365,7 +368,8 @@ class Decoder(Coder):
         min_value = bit_reader.read_int(nbits_min_value)
         nbits_diff = bit_reader.read_uint(NBITS_FOR_NBITS_DIFF)
 
-        assert nbits_diff == 0, ('{}: New reference values must be identical '
+        if nbits_diff != 0:
+            raise PyBufrKitError('{}: New reference values must be identical '
                                  'for all subsets for compressed data'.format(descriptor))
 
         for decoded_values in state.decoded_values_all_subsets:
